@@ -178,16 +178,19 @@ def run(pairs, abort=False, serial=False, cli_every=8):
         if m[1][0] == "compile-error":
             o["diffs"].append("model rejects the patch (no '-' elision before a '+' elision) but gopatch loaded it")
             continue
-        compare(o)
+        compare(o, abort)
     return out
 
 
-def compare(o):
+def compare(o, abort=False):
     r, m = o["impl"], o["model"]
     if r.get("meta_diff"):
         o["diffs"].append("the metavariable table compiled for a change differs from its declarations: %s" % "; ".join(r["meta_diff"])[:300])
     msteps = vlib.field(m, "steps")
     isteps = ["err" if s["replace_err"] else ("ok" if s["matched"] else "nomatch") for s in (r["steps"] or [])]
+    if abort and "err" in isteps:
+        # the model stops at the first failing change, as Apply and the command line do; the step-by-step hook goes on
+        isteps = isteps[:isteps.index("err") + 1]
     o["msteps"], o["isteps"] = msteps, isteps
     if msteps != isteps:
         o["diffs"].append("per-change outcomes differ: model %s, gopatch %s" % (msteps, isteps))
